@@ -90,6 +90,20 @@ def _qc_known(lam, roles):
 
 @family
 def axioms(ctx, block):
+    """With ``deterministic: true`` the whole block is evaluated under the ambient switch
+    torch.use_deterministic_algorithms(True) (restored afterwards): the axioms do not depend on it."""
+    if block.get("deterministic"):
+        prev = torch.are_deterministic_algorithms_enabled()
+        warn = torch.is_deterministic_algorithms_warn_only_enabled()
+        torch.use_deterministic_algorithms(True)
+        try:
+            return _axioms(ctx, block)
+        finally:
+            torch.use_deterministic_algorithms(prev, warn_only=warn)
+    return _axioms(ctx, block)
+
+
+def _axioms(ctx, block):
     measure, dtype, scale = block["measure"], block["dtype"], block["scale"]
     params = block["params"]
     cols = S.columns(block)
@@ -104,7 +118,7 @@ def axioms(ctx, block):
     nonconst = (cols != cols[:1]).any(0)
 
     def mini(js, p, extra_cols=None):
-        b = {k: block[k] for k in ("measure", "scale", "dtype", "via", "shape", "offset") if k in block}
+        b = {k: block[k] for k in ("measure", "scale", "dtype", "via", "shape", "offset", "deterministic") if k in block}
         b["N"] = N
         b["cols"] = [S.col_list(cols, j) for j in js]
         b["params"] = p if isinstance(p, list) else [p]
@@ -117,7 +131,8 @@ def axioms(ctx, block):
         if n == 0:
             return
         known = _qc_known(p, roles) if measure == "qcvar" else torch.zeros(n, dtype=torch.bool)
-        for flag, cls in ((True, "minimiser_below_range:" + axiom), (False, axiom)):
+        plain = axiom + (":deterministic_algorithms" if block.get("deterministic") else "")
+        for flag, cls in ((True, "minimiser_below_range:" + axiom), (False, plain)):
             sel = (known == flag).nonzero().flatten()
             if len(sel) == 0:
                 continue
@@ -196,7 +211,7 @@ def axioms(ctx, block):
                 c = c0 * scale
                 xc = x + c
                 vc = ev(p, xc)
-                delta = eps * xc.to(torch.float64).abs().amax(0)      # rounding of x + c
+                delta = S.input_rounding(measure, p, xc)              # rounding of x + c
                 want = V[p] - c
                 slack = S.tol_value(measure, p, xc) + T[p] + delta + 2 * eps * want.abs()
                 viol = ~((vc - want).abs() <= slack)
@@ -243,7 +258,7 @@ def axioms(ctx, block):
                 vm = ev(p, mix)
                 va, vb, ta, tb = V[p][a], V[p][b], T[p][a], T[p][b]
                 rhs = t * va + (1 - t) * vb
-                delta = eps * mix.to(torch.float64).abs().amax(0)
+                delta = S.input_rounding(measure, p, mix)
                 tm = S.tol_value(measure, p, mix, value=vm if measure == "eloss" else None)
                 slack = tm + t * ta + (1 - t) * tb + S.lipschitz_slack(measure, p, mix, delta) \
                     + 2 * eps * (va.abs() + vb.abs())
@@ -269,10 +284,17 @@ def axioms(ctx, block):
 
 # ----------------------------------------------------------------------------
 
+# isoelastic relative risk aversions: the logarithmic branch is a == 1 exactly; just below 1 the power law applies
+ISO_A = [0.25, 0.5, 1 - 1e-5, 1 - 1e-6, 1 - 5e-7, 1 - 1e-7, math.nextafter(1.0, 0.0), 1.0]
+# tiny positive outcomes (an almost wiped-out position): numerators/8 at scale 8e-6 = {1e-6, 3e-6, 1e-5, 1e-4, 7e-4}
+TINY = [1, 3, 10, 100, 700]
 # entropic risk aversions: 1e-4, 5e-4, 2e-3 straddle 1e-3 (a * spread reaches 1e2..1e3 at scale 1e6: a small
 # coefficient is NOT a small exponent), then the O(1) values
-PARAMS = {"erm": [1e-4, 5e-4, 2e-3, 0.1, 1.0, 10.0], "es": [0.05, 0.2, 1 / 3, 0.5, 0.75, 1.0], "qcvar": [1.0, 2.0, 10.0, 100.0],
-          "eloss": [0.1, 1.0, 10.0], "iso": [0.25, 0.5, 1.0]}
+PARAMS = {"erm": [1e-4, 5e-4, 2e-3, 0.1, 1.0, 10.0], "es": [0.05, 0.2, 1 / 3, 0.5, 0.75, 0.8, 1.0], "qcvar": [1.0, 2.0, 10.0, 100.0],
+          "eloss": [0.1, 1.0, 10.0], "iso": ISO_A}
+
+MIXED = [1, 2 ** 27, 3 * 2 ** 27]     # numerators/8 at scale 1/4: 1/32, 2^22, 3*2^22 (exact in float32)
+N_FLAG = (1, 2, 3)
 
 CONFIGS = [  # dtype, scale, via, shape
     ("float64", 1.0, "module", "2d"),
@@ -309,6 +331,24 @@ def blocks(ctx):
                 params = [a for a in PARAMS[measure] if measure != "eloss" or a * 100 <= lim]
                 out.append({"measure": measure, "N": N, "A": heavy, "params": params, "scale": 1.0,
                             "dtype": dtype, "via": "module", "shape": "2d"})
+        if measure == "iso":
+            for dtype in ("float32", "float64"):
+                for N in (1, 2, 3) if ctx.thorough else (1, 2):
+                    out.append({"measure": measure, "N": N, "A": TINY, "params": PARAMS[measure], "scale": 8e-6,
+                                "dtype": dtype, "via": "module" if dtype == "float32" else "functional", "shape": "2d"})
+        if measure == "es":
+            # magnitudes MIXED inside one sample: {1/32, 2^22, 3*2^22} = {0.03125, 4194304, 12582912}: the tail
+            # (small outcomes) must not be polluted by the size of the outcomes outside it
+            for dtype in ("float32", "float64"):
+                for N in Ns:
+                    out.append({"measure": measure, "N": N, "A": MIXED, "params": PARAMS[measure], "scale": 0.25,
+                                "dtype": dtype, "via": "module" if N % 2 else "functional", "shape": "2d"})
+        if N_FLAG:
+            # ambient switch torch.use_deterministic_algorithms(True): small exhaustive subset
+            for N in N_FLAG:
+                for dtype, via in (("float64", "module"), ("float32", "functional")):
+                    out.append({"measure": measure, "N": N, "A": Ap if measure == "iso" else A, "params": PARAMS[measure],
+                                "scale": 1.0, "dtype": dtype, "via": via, "shape": "2d", "deterministic": True})
         if measure == "erm":
             # heavy tail at a large scale: one loss of 1e6 against outcomes of 0 and 5e3
             for N in (2, 3):
@@ -328,7 +368,7 @@ def run(ctx):
              "call form; relations over ALL ordered pairs of samples of equal length (monotone for every pointwise "
              "dominating pair; convex at t=1/4 on ordered pairs (= 3/4 with roles swapped) and t=1/2 on unordered pairs), "
              "all (sample, c) for cash invariance, all (sample, k) for homogeneity, all adjacent parameter pairs, "
-             "bounds per sample.  evaluations = relation instances + base values; non-trivial = strictly dominating "
+             "bounds per sample; ES also on a mixed-magnitude alphabet; N<=3 again under torch.use_deterministic_algorithms(True).  evaluations = relation instances + base values; non-trivial = strictly dominating "
              "pairs / non-constant samples / finite mixtures")
     ctx.assume("one-sided slack = sum of the derived value tolerances (mc/models/risk_space.tol_value) of the "
                "evaluations involved + rounding of computed inputs (x+c, t x+(1-t) y)")
